@@ -51,6 +51,9 @@ func init() {
 	Plans["C09"].Prefixes = append(Plans["C09"].Prefixes, "H_C03_lexer")
 	Plans["C04"].Prefixes = append(Plans["C04"].Prefixes, "H_C03_escapes")
 	Plans["C11"].Prefixes = append(Plans["C11"].Prefixes, "H_C12_string")
+	Plans["C02"].Prefixes = append(Plans["C02"].Prefixes, "H_C19_exprefs")
+	Plans["C03"].Prefixes = append(Plans["C03"].Prefixes, "H_C12_spellings")
+	Plans["C04"].Prefixes = append(Plans["C04"].Prefixes, "H_C12_spellings")
 }
 
 type KnownFinding struct {
